@@ -70,7 +70,8 @@ def svcRepJson (r : SvcRep Json Json) : Json :=
   Json.mkObj <|
     [("iid", jnat? r.iid), ("type", Json.str r.typ),
      ("characteristics", Json.arr (r.chars.map charRepJson).toArray)] ++
-    (match r.primary with | none => [] | some b => [("primary", Json.bool b)])
+    (match r.primary with | none => [] | some b => [("primary", Json.bool b)]) ++
+    (if r.linked.isEmpty then [] else [("linked", Json.arr (r.linked.map jnat?).toArray)])
 
 def accRepJson (r : AccRep Json Json) : Json :=
   Json.mkObj [("aid", jnat? r.aid), ("services", Json.arr (r.services.map svcRepJson).toArray)]
@@ -354,10 +355,11 @@ def svcOf (j : Json) : R (Service Json Json) := do
   let primary := match optField j "primary" with
     | some (.bool b) => some b
     | _ => none
-  pure { obj := ← getNat j "obj", typ := ← getStr j "type", chars := chars, primary := primary }
+  let linked ← ((j.getObjValD "linked").getArr?.toOption.getD #[]).toList.mapM asNat
+  pure { obj := ← getNat j "obj", typ := ← getStr j "type", chars := chars, primary := primary, linked := linked }
 
-def iidmOf (pairs : List (Nat × Nat)) : Iid :=
-  { counter := pairs.foldl (fun m p => max m p.2) 0,
+def iidmOf (pairs : List (Nat × Nat)) (counter : Option Nat := none) : Iid :=
+  { counter := counter.getD (pairs.foldl (fun m p => max m p.2) 0),
     iids := fun o => (pairs.find? (·.1 == o)).map (·.2),
     objs := fun i => (pairs.find? (·.2 == i)).map (·.1) }
 
@@ -365,13 +367,15 @@ def accOf (j : Json) : R (Nat × Accessory Json Json) := do
   let aid ← getNat j "aid"
   let svcs ← (← getArr j "services").toList.mapM svcOf
   let pairs ← (← getArr j "iids").toList.mapM pairOf
-  pure (aid, { aid := some aid, services := svcs, iidm := iidmOf pairs, available := ← getBool j "available" })
+  let counter ← optNat j "counter"
+  pure (aid, { aid := some aid, services := svcs, iidm := iidmOf pairs counter, available := ← getBool j "available" })
 
 def dbOf (j : Json) : R (Db Json Json) := do
   let accs ← (← getArr j "accessories").toList.mapM accOf
   match accs with
   | [] => throw "config: no accessory"
-  | (_, m) :: rest => pure { main := m, isBridge := ← getBool j "bridge", bridged := rest, nextObj := 0 }
+  | (_, m) :: rest =>
+    pure { main := m, isBridge := ← getBool j "bridge", bridged := rest, nextObj := (← optNat j "nextObj").getD 0 }
 
 def gByKey (a : Array Json) : R (Nat → Option Json) := do
   let pairs ← a.toList.mapM fun it => do
@@ -384,6 +388,7 @@ def op11Of (j : Json) : R (Op11 Json Json) := do
   let op ← getStr j "op"
   match op with
   | "setValue" => pure (.setValue (← getNat j "obj") (outcome (j.getObjValD "vres")))
+  | "assignValue" => pure (.assignValue (← getNat j "obj") (j.getObjValD "value"))
   | "clientUpdate" =>
     pure (.clientUpdate (← getNat j "obj") (outcome (j.getObjValD "vres")) (← getBool j "cbRaises"))
   | "override" =>
@@ -402,6 +407,7 @@ def op11Of (j : Json) : R (Op11 Json Json) := do
   | "setGetter" => pure (.setGetter (← getNat j "obj") (← getBool j "on"))
   | "setAvailable" => pure (.setAvailable (← getNat j "aid") (← getBool j "on"))
   | "setPrimary" => pure (.setPrimary (← getNat j "aid") (← getStr j "type"))
+  | "addLinked" => pure (.addLinked (← getNat j "aid") (← getNat j "svc") (← getNat j "other"))
   | "readAll" => pure (.readAll (← getBool j "incl") (← gByKey (← getArr j "g")))
   | "readChars" =>
     let ids ← (← getArr j "ids").toList.mapM pairOf
@@ -426,11 +432,51 @@ def handle11 (j : Json) : R Json := do
   let ops ← (← getArr j "ops").toList.mapM op11Of
   pure (Json.mkObj [("outs", Json.arr (runOps11 s ops []).toArray)])
 
+/-! ### unified histories: construction ops (with the loader's definitions as data) and C11 ops -/
+
+/-- `{"type": t, "props": {…}, "name": loader name, "value": v, "alwaysNull": b}`: a characteristic as
+    the loader built it -/
+def charDefFull (j : Json) : R (CharDef Json Json) := do
+  pure { typ := ← getStr j "type", props := ← getObj j "props", name := ← optStr j "name",
+         value := j.getObjValD "value", alwaysNull := ← getBool j "alwaysNull" }
+
+def svcDefFull (j : Json) : R (SvcDef Json Json) := do
+  pure { typ := ← getStr j "type", chars := ← (← getArr j "chars").toList.mapM charDefFull }
+
+def opUOf (j : Json) : R (OpU Json Json) := do
+  let op ← getStr j "op"
+  match op with
+  | "addService" => pure (.con (.addService (← getNat j "aid") (← svcDefFull (← getObj j "def"))))
+  | "addAccessory" =>
+    let defs ← (← getArr j "defs").toList.mapM svcDefFull
+    pure (.con (.addAccessory (← optNat j "aid") false defs))
+  | "removeAccessory" => pure (.con (.removeAccessory (← getNat j "aid")))
+  | "assign" => pure (.con (.assign (← getNat j "aid") (← getNat j "obj")))
+  | "removeObj" => pure (.con (.removeObj (← getNat j "aid") (← getNat j "obj")))
+  | "removeIid" => pure (.con (.removeIid (← getNat j "aid") (← getNat j "iid")))
+  | _ => pure (.db (← op11Of j))
+
+def outUJson : OutU Json Json → Json
+  | .res r => resJson r
+  | .out o => out11Json o
+
+def runOpsU (s : Db Json Json) : List (OpU Json Json) → List Json → List Json
+  | [], acc => acc.reverse
+  | op :: rest, acc =>
+    match s.stepU op with
+    | (s', o) => runOpsU s' rest (outUJson o :: acc)
+
+def handleU (j : Json) : R Json := do
+  let s ← dbOf (← getObj j "config")
+  let ops ← (← getArr j "ops").toList.mapM opUOf
+  pure (Json.mkObj [("outs", Json.arr (runOpsU s ops []).toArray)])
+
 def handle (j : Json) : R Json := do
   let op ← getStr j "op"
   match op with
   | "c17" => handle17 j
   | "c11" => handle11 j
+  | "c11u" => handleU j
   | _ => throw s!"db: unknown op {op}"
 
 end Hap.Drv.Db
